@@ -272,6 +272,14 @@ def check(ctx, fx):
     n4 = 0
     for f in comp:
         mf = MustFlow(f)
+        # a reference local bound to the part list (`auto& parts = *part_list;`) names the same object
+        alias_of = {"part_list": ["part_list"]}
+        for b in f["blocks"]:
+            for s in b["stmts"]:
+                if s["k"] == "decl":
+                    for v in s["vars"]:
+                        if "&" in (v.get("ty") or "") and v.get("init") is not None and "part_list" in X.show(v["init"]):
+                            alias_of["part_list"].append(":" + v["name"])
         for b in f["blocks"]:
             for i, s in enumerate(b["stmts"]):
                 for nd in X.stmt_nodes(s, local=True):
@@ -283,7 +291,7 @@ def check(ctx, fx):
                         facts = mf.facts_before(b["id"], i) or frozenset()
                         missing = []
                         for (pre, sub) in need[r["name"]]:
-                            if not any(x.startswith(pre) and sub in x for x in facts):
+                            if not any(x.startswith(pre) and any(al in x for al in alias_of.get(sub, [sub])) for x in facts):
                                 missing.append(pre + "…" + sub)
                         ctx.check("M4", "compile: %s only when the shortcut is exact" % r["name"], not missing,
                                   "guards: " + ", ".join(p_ + s_ for p_, s_ in need[r["name"]]),
@@ -374,6 +382,19 @@ def mode_table(f, test):
             continue
         tb = [s["to"] for s in b["succ"] if s["when"] == "true"][0]
         acc[r["name"]] = region_condition(blocks, tb, test)
+    # the same dispatch written as `switch (type)`: every case that does something of its own is an explicit branch; a case
+    # that only breaks out to the code behind the switch is the fallback
+    for b in f["blocks"]:
+        t = b["term"]
+        if t.get("kind") == "SwitchStmt" and t.get("cond") is not None and X.show(X.strip(t["cond"])) == "type":
+            for e in b["succ"]:
+                cb = blocks[e["to"]]
+                lab = (cb.get("label") or {}).get("case")
+                if not (isinstance(lab, dict) and lab.get("kind") == "enumerator"):
+                    continue
+                if not cb["stmts"] and cb["term"].get("cond") is None and len(cb["succ"]) == 1:
+                    continue
+                acc[lab["name"]] = region_condition(blocks, cb["id"], test)
     # fallback: the return reached when no `type == X` matched
     for b in f["blocks"]:
         for s in b["stmts"]:
